@@ -76,7 +76,7 @@ def run(ctx):
     ctx.prepare()
     ctx.lean(["Crng.Props.C19"], ["Crng.Props.C19.accepted_strictly_increasing", "Crng.Props.C19.accept_iff_newer", "Crng.Props.C19.newer_positive_accepted",
                                   "Crng.Props.C19.not_newer_rejected", "Crng.Props.C19.collision_counterexample"],
-             ties=["Crng.Tie.C19", common.CODE_TABLE])
+             ties=["Crng.Tie.C19", common.CODE_TABLE, common.CODE_ORDERED])
     ctx.stream("table-order", "table", cases(ctx.rng("c19"), ctx.scale(150, 3000)), classify=classify, spec_exact=True, monitor=monitor,
                nontrivial=lambda l, o: tuple(x for x in o if "ooo=1" in x) and tuple(o) or None,
                removable=lambda l: l.startswith(("in ", "inm ", "aggin ")))
